@@ -54,16 +54,20 @@ Proof. exact integer_default_fits. Qed.
 Theorem C06_unit_null_optional : has_default (Some DUnit) (Some JNull) = POptional.
 Proof. exact unit_null_optional. Qed.
 
-(* (3) C06_default_typed on the STRUCTURAL FRAGMENT: types built from bool / the twelve known integer
-   types / floats / string / unit by Option, Box, Vec, Set, fixed arrays, tuples of ANY arity (incl.
-   one: was C06_default_typed_tuple1_refuted, fixed by dc9ac49) and newtypes with any constraints:
-   a validated default renders to an expression rustc types at the target type.
-   PARTIAL w.r.t. the full statement (every kind): structs (incl. flattened members), maps, the four
-   enum taggings, natives and JsonValue are covered by the per-run model-vs-rustc agreement only. *)
-Theorem C06_default_typed_partial : forall re T g f t d k,
-  validate_value re T f t d = ROk k -> frag T f t = true ->
-  exists e, output_value T f t d = ROk e /\ expr_typed T g e t = true.
-Proof. exact frag_typed. Qed.
+(* (3) C06_default_typed for EVERY kind except untagged enums: a validated default renders to an expression that
+   rustc types at the target type.  [tfrag T g n t] is a decidable condition on the TYPE only (n bounds its depth):
+   bool, the twelve known integer types, floats, string, unit, JsonValue, natives; Option, Box, Vec, Set, fixed
+   arrays, tuples of any arity, maps, newtypes with any constraints; structs whose members are direct members or ONE
+   flattened String-keyed map, with distinct field and wire names and Default-implementing types for the non-required
+   members (an absent member is rendered `Default::default()`); externally / internally / adjacently tagged enums
+   with distinct non-empty variant identifiers (unit, newtype, tuple incl. one-element, struct variants).
+   PARTIAL w.r.t. the full statement: untagged enums (output_value may pick an EARLIER variant than the one that
+   validated), flattened struct / Option<struct> members, recursive types (tfrag bounds the type depth) and
+   non-required members whose type has no Default impl (second face of finding C06-F12, E0277). *)
+Theorem C06_default_typed_partial : forall re T g n f t d k,
+  validate_value re T f t d = ROk k -> tfrag T g n t = true ->
+  exists e, output_value T n t d = ROk e /\ expr_typed T g e t = true.
+Proof. intros re T g n. exact (tfrag_typed re T g n). Qed.
 
 (* ex C06_default_typed_tuple1_variant_refuted (finding C06-F13, fixed by 15ce314): the former witness is now
    rendered `E::V((3_i64,))`, typed at `V((i64,))`, and denotes the schema default *)
@@ -72,13 +76,20 @@ Theorem C06_tuple1_variant_example :
             eval_expr Tw e = Some (JObj [(u "V", JArr [JInt 3])]).
 Proof. exact tuple1_variant_example. Qed.
 
-(* (4) C06_default_exact on the scalar kinds: the rendered expression denotes a value that
-   serialises to the schema default.  PARTIAL: composite kinds by the per-run model-vs-serde agreement. *)
-Theorem C06_default_exact_partial : forall re T f t det d k,
-  get_det T t = Some det -> scalar_det det = true ->
-  validate_value re T (S f) t d = ROk k ->
-  exists e r, output_value T (S f) t d = ROk e /\ eval_expr T e = Some r /\ approx d r = true.
-Proof. exact scalar_exact. Qed.
+(* (4) C06_default_exact on the structural fragment [efrag]: scalars under Option, Box, Vec, Set, fixed arrays,
+   tuples and newtypes: the rendered expression denotes a value whose serialisation [approx]-equals the schema
+   default.  PARTIAL: structs, maps, enums, natives are covered by the per-run model-vs-serde agreement only. *)
+Theorem C06_default_exact_partial : forall re T n f t d k,
+  validate_value re T f t d = ROk k -> efrag T n t = true ->
+  exists e, output_value T n t d = ROk e /\ exists r, eval_expr T e = Some r /\ approx d r = true.
+Proof. exact efrag_exact. Qed.
+
+(* exactness for structs is REFUTED on the real code (finding C06-F12, open): a member with its own schema default
+   that is absent from the default value is rendered `Default::default()`.  [Known_F12 T e]: e contains such a member. *)
+Theorem C06_nested_default_fill_refuted :
+  exists T t d k e, validate_value re0 T 3 t d = ROk k /\ output_value T 3 t d = ROk e /\ Known_F12 T e /\
+                    e = EStruct (u "Pt") [(FId (u "x"), ENum (JInt 1) (u "i64")); (FId (u "y"), EDefault)].
+Proof. exact nested_default_fill_refuted. Qed.
 
 (* the former refutation witnesses, now regression examples of the repaired behaviour:
    String x 5, Vec<u8> x [300], S3(maxLength 3) x "toolong", IEnum[1,2] x 7, NonZeroU32 x 0 are
@@ -98,7 +109,8 @@ Example C06_nonvacuous_validate : validate_value re0 Tw 3 6 (JArr [JInt 1; JInt 
 Proof. vm_compute. reflexivity. Qed.
 
 Example C06_nonvacuous_frag :
-  frag Tw 3 3 = true /\ frag Tw 3 6 = true /\ frag Tw 3 7 = true /\
+  tfrag Tw 3 3 3 = true /\ tfrag Tw 3 3 6 = true /\ tfrag Tw 3 3 7 = true /\ tfrag Tw 3 3 10 = true /\
+  tfrag Tw 3 3 12 = true /\ tfrag Tw 3 3 9 = true /\ efrag Tw 3 3 = true /\ efrag Tw 3 6 = true /\
   validate_value re0 Tw 3 3 (JArr [JInt 3]) = ROk KSpecific.
 Proof. repeat split; vm_compute; reflexivity. Qed.
 
